@@ -170,6 +170,39 @@ func (p *Pool) CommitHashes(hashes []string) {
 	}
 }
 
+// CommitForeign applies a block produced elsewhere whose transactions this pool was never given:
+// the ledger's nonce of the account is now n. Whatever the pool holds below n lost its slot.
+func (p *Pool) CommitForeign(a string, n uint64) {
+	ac := p.acct(a)
+	if n > ac.commit {
+		ac.commit = n
+	}
+	if ac.next < ac.commit {
+		ac.next = ac.commit
+	}
+	for nn, h := range ac.held {
+		if nn < ac.commit {
+			p.status[h] = "superseded"
+			delete(ac.held, nn)
+			delete(p.byHash, h)
+		}
+	}
+}
+
+// MarkBatched applies a block minted elsewhere that contains the next ready transactions of an
+// account: from now on they count as handed to consensus.
+func (p *Pool) MarkBatched(txs []PoolTx) {
+	for _, tx := range txs {
+		ac := p.acct(tx.Account)
+		if tx.Nonce >= ac.next {
+			ac.next = tx.Nonce + 1
+		}
+	}
+}
+
+// Next is the next nonce of the account that may be handed to consensus.
+func (p *Pool) Next(a string) uint64 { return p.acct(a).next }
+
 // Held lists txs the specification says must still be retrievable.
 func (p *Pool) Held() []PoolTx {
 	var out []PoolTx
